@@ -9,6 +9,8 @@ never produced, i.e. every call of `next()` returns after consuming input.
 -/
 import OratioModel
 import OratioProofs.Lemmas.Lexer
+import OratioProofs.Lemmas.LexerTotal
+import Batteries.Lean.Except
 
 namespace Oratio
 open Riddle
@@ -17,15 +19,19 @@ open Riddle
     not longer than before -/
 theorem C18_nextTok_total (s : Stream) (k : Nat) :
     nextTok (s.length + 2 + k) s ≠ .error .fuel ∧
-    ∀ t r, nextTok (s.length + 2 + k) s = .ok (t, r) → r.length ≤ s.length ∧ (t ≠ .sym .EOF → r.length < s.length) := by sorry
+    ∀ t r, nextTok (s.length + 2 + k) s = .ok (t, r) → r.length ≤ s.length ∧ (t ≠ .sym .EOF → r.length < s.length) := by
+  exact nextTok_total s k
 
 /-- the whole token stream: for every input, tokens ending in `EOF` or one of the six reported errors -/
-theorem C18_lexer_total (s : Stream) : lex s ≠ .error .fuel := by sorry
+theorem C18_lexer_total (s : Stream) : lex s ≠ .error .fuel := by
+  exact lexAll_ne_fuel (s.length + 2) s (by omega)
 
 /-- and the stream of a successful run always ends with `EOF` -/
-theorem C18_lex_ends_with_eof (s : Stream) (ts : List Tok) (h : lex s = .ok ts) : ts.getLast? = some (.sym .EOF) := by sorry
+theorem C18_lex_ends_with_eof (s : Stream) (ts : List Tok) (h : lex s = .ok ts) : ts.getLast? = some (.sym .EOF) := by
+  exact lexAll_last (s.length + 2) s ts h
 
 example : lex (strInts "\"never closed") = .error .unterminatedString ∧ lex (strInts "/* never closed **") = .error .unterminatedComment ∧
-    lex (strInts "99999999999999999999") = .error .outOfRange := by sorry
+    lex (strInts "99999999999999999999") = .error .outOfRange := by
+  refine ⟨?_, ?_, ?_⟩ <;> decide +kernel
 
 end Oratio
